@@ -74,7 +74,10 @@ TEMPLATES = ['[a]({p})', '[a](<{p}>)', '![{p}](x)', '![a]({p})', '![a](x "{p}")'
              # rich content in one slot, the payload in another
              '[*c* "q" <b>](/u \'{p}\')', '![*c* "q"](/i "{p}")', '[**s** \'q\'][r]\n\n[r]: /u "{p}"', '[`co` & "q"]({p} "t")', '![a "b"]({p})',
              # an EMPTY slot next to the payload (a renderer may fill the gap from the other slot)
-             '[]({p})', '![]({p})', '[][r]\n\n[r]: <{p}>', '[](u "{p}")', '![](i \'{p}\')', '<xy:a@b{p}>', '<irc://n@h/{p}>']
+             '[]({p})', '![]({p})', '[][r]\n\n[r]: <{p}>', '[](u "{p}")', '![](i \'{p}\')', '<xy:a@b{p}>', '<irc://n@h/{p}>',
+             # the same text first as ordinary text, then inside an attribute (a caption repeated as alt text or title): what one
+             # context has computed must not be reused in the other
+             '{p}\n\n![{p}](x)', '{p} ![{p}](x) {p}', '*{p}*\n\n![a](x "{p}")', '{p}\n\n[{p}](u \'{p}\')', '`{p}` ![{p}](x)', '# {p}\n\n![{p}](x "{p}")']
 
 OPTS = [dict(process_html_tokens=p, html_escape_double_quotes=d, html_escape_single_quotes=s) for p in (False, True) for d in (False, True) for s in (False, True)]
 
